@@ -42,15 +42,24 @@ theorem mem_rep {r : Rx} {lo hi e s} {x : Env × Str} :
     x ∈ (Rx.rep r lo hi).run e s ↔ x ∈ iter r.run lo hi e s := by
   simp [Rx.run]
 
+theorem iterG_hi_zero (f : Env → Str → Res) (lo : Nat) (last : Option Nat) (e : Env) (s : Str) :
+    iterG f lo 0 last e s = if lo = 0 then [(e, s)] else [] := by
+  cases lo <;> simp [iterG]
+
+/-- stopping is always possible once the forced rounds are done -/
+theorem self_mem_iterG (f : Env → Str → Res) (hi : Nat) (last : Option Nat) (e : Env) (s : Str) :
+    (e, s) ∈ iterG f 0 hi last e s := by
+  cases hi <;> simp [iterG]
+
 theorem mem_opt {r : Rx} {e s} {x : Env × Str} :
     x ∈ (Rx.opt r).run e s ↔ x ∈ r.run e s ∨ x = (e, s) := by
-  simp only [Rx.run, iter, List.mem_append, List.mem_flatMap, if_true, List.mem_singleton, Nat.sub_self]
+  simp only [Rx.run, iter, iterG, List.mem_append, List.mem_flatMap, List.mem_singleton, reduceCtorEq, if_false, if_true]
   constructor
   · rintro (⟨⟨a, b⟩, h1, h2⟩ | h)
-    · left; simp at h2; rw [h2]; exact h1
+    · left; rw [h2]; exact h1
     · right; exact h
   · rintro (h | h)
-    · left; exact ⟨x, h, by simp⟩
+    · left; exact ⟨x, h, rfl⟩
     · right; exact h
 
 theorem mem_nla {r : Rx} {e s} {x : Env × Str} :
@@ -112,13 +121,15 @@ theorem mem_cls {neg items e s} {x : Env × Str} :
       rintro ⟨c, s', ⟨rfl, rfl⟩, hc, _⟩
       exact h hc
 
-/-- greedy class repetition: exactly the drops of a class-prefix of length between `lo` and `hi` -/
-theorem mem_iter_cls (neg : Bool) (items : List CI) (lo n : Nat) (e : Env) (s : Str) (x : Env × Str) :
-    x ∈ iter (Rx.cls neg items).run lo n e s ↔
+/-- greedy class repetition: exactly the drops of a class-prefix of length between `lo` and `hi`
+(every round consumes one character, so the zero-width guard never fires) -/
+theorem mem_iterG_cls (neg : Bool) (items : List CI) (lo n : Nat) (last : Option Nat) (e : Env) (s : Str) (x : Env × Str)
+    (hl : ∀ m, last = some m → lo = 0 ∧ m ≠ s.length) :
+    x ∈ iterG (Rx.cls neg items).run lo n last e s ↔
       ∃ k, lo ≤ k ∧ k ≤ n ∧ k ≤ s.length ∧ (∀ c ∈ s.take k, inCls neg items c = true) ∧ x = (e, s.drop k) := by
-  induction n generalizing s lo with
+  induction n generalizing s lo last with
   | zero =>
-    simp only [iter]
+    rw [iterG_hi_zero]
     split
     · next h =>
       subst h
@@ -133,36 +144,70 @@ theorem mem_iter_cls (neg : Bool) (items : List CI) (lo n : Nat) (e : Env) (s : 
       rintro ⟨k, h1, h2, -⟩
       omega
   | succ n ih =>
-    simp only [iter, List.mem_append, List.mem_flatMap]
-    constructor
-    · rintro (⟨⟨e', s'⟩, h1, h2⟩ | h0)
-      · obtain ⟨c, t, rfl, hc, hx⟩ := mem_cls.mp h1
+    cases lo with
+    | succ lo =>
+      have hnone : last = none := by
+        cases last with
+        | none => rfl
+        | some m => exact absurd (hl m rfl).1 (by omega)
+      subst hnone
+      simp only [iterG, List.mem_flatMap]
+      constructor
+      · rintro ⟨⟨e', s'⟩, h1, h2⟩
+        obtain ⟨c, t, rfl, hc, hx⟩ := mem_cls.mp h1
         simp only [Prod.mk.injEq] at hx
         obtain ⟨rfl, rfl⟩ := hx
-        obtain ⟨k, hlo, hk, hl, hall, rfl⟩ := (ih _ _).mp h2
+        obtain ⟨k, hlo, hk, hl', hall, rfl⟩ := (ih lo none _ (by simp)).mp h2
         refine ⟨k+1, by omega, by omega, by simp; omega, ?_, by simp⟩
         intro c' hc'
         simp at hc'
         rcases hc' with rfl | hc'
         · exact hc
         · exact hall c' hc'
-      · split at h0
-        · next h => subst h; simp at h0; subst h0; exact ⟨0, by simp⟩
-        · simp at h0
-    · rintro ⟨k, hlo, hk, hl, hall, rfl⟩
-      cases k with
-      | zero =>
-        right
-        have : lo = 0 := by omega
-        subst this; simp
-      | succ k =>
-        left
-        cases s with
-        | nil => simp at hl
-        | cons a t =>
-          have ha : inCls neg items a = true := hall a (by simp)
-          refine ⟨(e, t), mem_cls.mpr ⟨a, t, rfl, ha, rfl⟩, ?_⟩
-          exact (ih _ _).mpr ⟨k, by omega, by omega, by simpa using hl, fun c hc => hall c (by simp [hc]), by simp⟩
+      · rintro ⟨k, hlo, hk, hl', hall, rfl⟩
+        cases k with
+        | zero => omega
+        | succ k =>
+          cases s with
+          | nil => simp at hl'
+          | cons a t =>
+            have ha : inCls neg items a = true := hall a (by simp)
+            refine ⟨(e, t), mem_cls.mpr ⟨a, t, rfl, ha, rfl⟩, ?_⟩
+            exact (ih lo none _ (by simp)).mpr ⟨k, by omega, by omega, by simpa using hl', fun c hc => hall c (by simp [hc]), by simp⟩
+    | zero =>
+      have hlast : last ≠ some s.length := by
+        intro h; exact (hl _ h).2 rfl
+      simp only [iterG, hlast, if_false, List.mem_append, List.mem_flatMap, List.mem_singleton]
+      constructor
+      · rintro (⟨⟨e', s'⟩, h1, h2⟩ | h0)
+        · obtain ⟨c, t, rfl, hc, hx⟩ := mem_cls.mp h1
+          simp only [Prod.mk.injEq] at hx
+          obtain ⟨rfl, rfl⟩ := hx
+          obtain ⟨k, hlo, hk, hl', hall, rfl⟩ := (ih 0 _ _ (by intro m hm; simp at hm; subst hm; simp)).mp h2
+          refine ⟨k+1, by omega, by omega, by simp; omega, ?_, by simp⟩
+          intro c' hc'
+          simp at hc'
+          rcases hc' with rfl | hc'
+          · exact hc
+          · exact hall c' hc'
+        · subst h0; exact ⟨0, by simp⟩
+      · rintro ⟨k, hlo, hk, hl', hall, rfl⟩
+        cases k with
+        | zero => right; simp
+        | succ k =>
+          left
+          cases s with
+          | nil => simp at hl'
+          | cons a t =>
+            have ha : inCls neg items a = true := hall a (by simp)
+            refine ⟨(e, t), mem_cls.mpr ⟨a, t, rfl, ha, rfl⟩, ?_⟩
+            exact (ih 0 _ _ (by intro m hm; simp at hm; subst hm; simp)).mpr
+              ⟨k, by omega, by omega, by simpa using hl', fun c hc => hall c (by simp [hc]), by simp⟩
+
+theorem mem_iter_cls (neg : Bool) (items : List CI) (lo n : Nat) (e : Env) (s : Str) (x : Env × Str) :
+    x ∈ iter (Rx.cls neg items).run lo n e s ↔
+      ∃ k, lo ≤ k ∧ k ≤ n ∧ k ≤ s.length ∧ (∀ c ∈ s.take k, inCls neg items c = true) ∧ x = (e, s.drop k) :=
+  mem_iterG_cls neg items lo n none e s x (by simp)
 
 theorem mem_plus_cls (neg : Bool) (items : List CI) (e : Env) (s : Str) (x : Env × Str) :
     x ∈ (Rx.plus (Rx.cls neg items)).run e s ↔
